@@ -72,4 +72,93 @@ theorem bstepF_threw {i i' : Inj} {g : Nat → Nat → Nat} {h h' : Heap} {b b' 
       obtain ⟨_, _, hc, _⟩ := he
       cases hc
 
+/-- the single-pass loop under any schedule: whether it finishes or throws, the vector owns a well-formed store holding some
+list and only its own blocks were touched -/
+theorem insertInputF_spec (g : Nat → Nat → Nat) (hg : ∀ n c, n ≤ g n c) :
+    ∀ (xs : List Int) (i : Inj) (h : Heap) (v : RV) (l : List Int) (pos : Nat), HeapWf h → Owns h v l → pos ≤ l.length →
+    ∀ out i', insertInputF i g h v pos xs = .ok (out, i') →
+    ∃ h' v' l', (out = .done (h', v') ∨ out = .threw (h', v')) ∧ Owns h' v' l' ∧ Frame h v.base h' v'.base
+  | [], i, h, v, l, pos, hwf, ho, _, out, i', he => by
+    simp only [insertInputF, pure_eq_ok, Except.ok.injEq, Prod.mk.injEq] at he
+    obtain ⟨rfl, _⟩ := he
+    exact ⟨h, v, l, Or.inl rfl, ho, Frame.refl hwf _⟩
+  | x :: xs, i, h, v, l, pos, hwf, ho, hp, out, i', he => by
+    obtain ⟨h1, v1, he1, ho1, hf1⟩ := insert1_spec g hg hwf ho pos hp (.val x) x rfl
+    have hstep : ∀ j, (do let r ← insert1 g h v pos (.val x); pure (Out.done (r.1, r.2.1), j) : M (Out (Heap × RV) × Inj)) =
+        .ok (.done (h1, v1), j) := fun j => by simp only [he1, ok_bind, pure_eq_ok]
+    simp only [insertInputF, insert1F] at he
+    split at he
+    · rw [hstep] at he
+      simp only [ok_bind] at he
+      obtain ⟨h2, v2, l2, hout, ho2, hf2⟩ := insertInputF_spec g hg xs _ h1 v1 _ (pos + 1) hf1.wf ho1
+        (by rw [length_insertAt l [x] pos hp]; simp; omega) out i' he
+      exact ⟨h2, v2, l2, hout, ho2, Frame.trans hwf (ho.base_lt hwf) hf1 hf2⟩
+    · split at he
+      · simp only [pure_eq_ok, ok_bind, Except.ok.injEq, Prod.mk.injEq] at he
+        obtain ⟨rfl, _⟩ := he
+        exact ⟨h, v, l, Or.inr rfl, ho, Frame.refl hwf _⟩
+      · rw [hstep] at he
+        simp only [ok_bind] at he
+        obtain ⟨h2, v2, l2, hout, ho2, hf2⟩ := insertInputF_spec g hg xs _ h1 v1 _ (pos + 1) hf1.wf ho1
+          (by rw [length_insertAt l [x] pos hp]; simp; omega) out i' he
+        exact ⟨h2, v2, l2, hout, ho2, Frame.trans hwf (ho.base_lt hwf) hf1 hf2⟩
+
+/-- a throwing constructor (with the range constructor's catch): no object, and every slot of the heap is as it was -/
+theorem constructF_threw (g : Nat → Nat → Nat) (hg : ∀ n c, n ≤ g n c) {i i' : Inj} {h h' : Heap} (hwf : HeapWf h) (c : Ctor) {v' : RV}
+    (he : constructF i g h c = .ok (.threw (h', v'), i')) : v' = RV.null ∧ Frame h none h' none := by
+  have hnone : ∀ b, (none : Option Nat) = some b → b < h.next := fun b hb => by cases hb
+  have single : ∀ (o : VOp) (catches : Bool), (∀ pos xs, o ≠ .insertRange pos xs false) →
+      (do let r ← vstepF i g h RV.null o
+          match r.1 with
+          | .threw s =>
+            if catches then do
+              let h1 ← deallocate s.1 s.2.1
+              pure (Out.threw (h1, RV.null), r.2)
+            else pure (.threw (s.1, s.2.1), r.2)
+          | .done s => pure (.done (s.1, s.2.1), r.2) : M (Out (Heap × RV) × Inj)) = .ok (.threw (h', v'), i') →
+      v' = RV.null ∧ Frame h none h' none := by
+    intro o catches hne hx
+    simp only [bind_eq_ok] at hx
+    obtain ⟨⟨x, j⟩, hv, hx⟩ := hx
+    cases x with
+    | done y => simp only [pure_eq_ok, Except.ok.injEq, Prod.mk.injEq] at hx; obtain ⟨hc, _⟩ := hx; cases hc
+    | threw y =>
+      obtain ⟨h2, v2, r2⟩ := y
+      obtain ⟨rfl, rfl⟩ := vstepF_threw hne hv
+      cases catches with
+      | true =>
+        simp only [if_true, deallocate, RV.null, ok_bind, pure_eq_ok, Except.ok.injEq, Prod.mk.injEq, Out.threw.injEq] at hx
+        obtain ⟨⟨rfl, rfl⟩, _⟩ := hx
+        exact ⟨rfl, Frame.refl hwf _⟩
+      | false =>
+        simp only [Bool.false_eq_true, if_false, pure_eq_ok, Except.ok.injEq, Prod.mk.injEq, Out.threw.injEq] at hx
+        obtain ⟨⟨rfl, rfl⟩, _⟩ := hx
+        exact ⟨rfl, Frame.refl hwf _⟩
+  cases c with
+  | dflt => simp only [constructF, pure_eq_ok, Except.ok.injEq, Prod.mk.injEq] at he; obtain ⟨hc, _⟩ := he; cases hc
+  | count n x => exact single (.insertN 0 n (.val x)) false (fun _ _ hx => by cases hx) he
+  | il xs => exact single (.insertRange 0 xs true) false (fun _ _ hx => by cases hx) he
+  | range xs fwd =>
+    cases fwd with
+    | true => exact single (.insertRange 0 xs true) true (fun _ _ hx => by cases hx) he
+    | false =>
+      simp only [constructF, vstepF, bind_eq_ok] at he
+      obtain ⟨⟨x, j⟩, hv, he⟩ := he
+      rw [if_neg (by simp [RV.null])] at hv
+      simp only [bind_eq_ok] at hv
+      obtain ⟨⟨out, j2⟩, hin, hv⟩ := hv
+      obtain ⟨h2, v2, l2, hout, ho2, hf2⟩ := insertInputF_spec g hg xs i h RV.null [] 0 hwf (Owns.null h) (Nat.le_refl _) out j2 hin
+      rcases hout with rfl | rfl
+      · simp only [pure_eq_ok, Except.ok.injEq, Prod.mk.injEq] at hv
+        obtain ⟨rfl, _⟩ := hv
+        simp only [pure_eq_ok, Except.ok.injEq, Prod.mk.injEq] at he
+        obtain ⟨hc, _⟩ := he
+        cases hc
+      · simp only [pure_eq_ok, Except.ok.injEq, Prod.mk.injEq] at hv
+        obtain ⟨rfl, _⟩ := hv
+        obtain ⟨h3, hd, hf3⟩ := destroy_spec hf2.wf ho2
+        simp only [if_true, hd, ok_bind, pure_eq_ok, Except.ok.injEq, Prod.mk.injEq, Out.threw.injEq] at he
+        obtain ⟨⟨rfl, rfl⟩, _⟩ := he
+        exact ⟨rfl, Frame.trans hwf hnone hf2 hf3⟩
+
 end Fcppt.C07
